@@ -664,7 +664,16 @@ fn replay(path: &str, quiet: bool) -> i32 {
             }
         }
     }
-    match scn.exec(mask) {
+    // A violation that consists in nondeterminism of the library (two
+    // executions of one history differing) shows in a given execution only with
+    // some probability: re-execute a few times before concluding that it is gone.
+    let mut outcome = scn.exec(mask);
+    let mut attempts = 1;
+    while outcome.is_none() && attempts < 8 {
+        outcome = scn.exec(mask);
+        attempts += 1;
+    }
+    match outcome {
         Some(v) if v.property == rf.property && v.clause == rf.clause => {
             if !quiet {
                 println!("replay: {} {}: {}", v.property, v.clause, v.detail);
